@@ -22,6 +22,7 @@
   is replayed through the model (each step a legal instance), so the theorem applies to it.
 -/
 import Ptx.Props.C10
+import Ptx.Props.C02
 namespace Ptx.Props.C09
 open Ptx
 
@@ -57,6 +58,22 @@ theorem C09_no_conflicting_verdicts_partial (L : LogicData) (hcore : L.soundCore
     ¬ ∃ (M : Struct) (_ : M.Interp L) (e : Env M.D) (w0 : M.W), Countermodel L M e w0 arg' := by
   rintro ⟨M, hM, e, w0, hc⟩
   exact C09_verdict_unique_partial L hcore arg arg' hsame t hd hclosed M hM e w0 hc
+
+
+/-- The two outcome classes exclude each other across ALL searches: if some legal derivation for
+    `arg` closes, then no legal derivation for any re-ordering / duplication `arg'` of it reaches a
+    tableau with a saturated (ground) open branch — whatever the options, tie-break order, build or
+    step loop of either search.  (C01 for the closed one, the Hintikka lemma C02 for the open one.) -/
+theorem C09_outcomes_exclusive_partial (L : LogicData) (W : Weights)
+    (hsound : L.soundCoreB = true) (hcore : L.hintikkaCoreB = true)
+    (hW : L.measureOKOnB RuleKey.notQuant W = true)
+    (hT : L.T.vals.contains .T = true) (hF : L.T.vals.contains .F = true) (htb : L.trunkBackB = true)
+    (arg arg' : Argument) (hsame : SameArgument arg arg')
+    (t : Tableau) (hd : Deriv L.soundPart (trunk L arg) t) (hclosed : t.allClosed = true)
+    (t' : Tableau) (hd' : Deriv L (trunk L arg') t')
+    (b : Branch) (hb : b ∈ t') (hsat : L.saturatedB b = true) (hg : b.groundB L = true) : False := by
+  obtain ⟨hM, hc⟩ := Ptx.Props.C02.C02_countermodel_partial L W hcore hW hT hF htb arg' t' hd' b hb hsat hg
+  exact C09_verdict_unique_partial L hsound arg arg' hsame t hd hclosed _ hM _ _ hc
 
 /-- non-vacuity: a permuted, duplicated premise list is the same argument -/
 example : SameArgument ⟨[.atom 0 0, .atom 1 0], .atom 2 0⟩ ⟨[.atom 1 0, .atom 0 0, .atom 1 0], .atom 2 0⟩ := by
